@@ -299,11 +299,12 @@ func ruleBitList(c *Ctx) {
 				continue
 			}
 		}
-		if len(calls) != 1 {
-			// the loop may live in an unexported helper shared by AddByte and AddBits: the bit number q that
-			// is tested runs from the top index down to 0, whatever the helper's own loop variable does
+		{
+			// the bit number q that is tested runs from the top index down to 0, whatever the loop variable
+			// itself does (q, q+1, count-1-q, ...) and wherever the loop lives (here or in an unexported
+			// helper shared by AddByte and AddBits)
 			sites := c.P.deepCallsTo(fn, addBit)
-			if len(sites) == 1 && len(sites[0].Path) > 0 {
+			if len(sites) == 1 {
 				site := sites[0]
 				call := site.Ins.(*ssa.Call)
 				n.Ctx = site.Path
@@ -353,8 +354,10 @@ func ruleBitList(c *Ctx) {
 				n.Ctx = nil
 				continue
 			}
-			c.Check(R3, "utils.(*BitList)."+m.name+"/shape", fn.Pos(), false, "one AddBit call in a loop", fmt.Sprint(len(calls)))
-			continue
+			if len(calls) != 1 {
+				c.Check(R3, "utils.(*BitList)."+m.name+"/shape", fn.Pos(), false, "one AddBit call in a loop", fmt.Sprint(len(calls)))
+				continue
+			}
 		}
 		call := calls[0]
 		hdr := enclosingLoopHeader(call.Block())
@@ -438,7 +441,7 @@ func ruleBitList(c *Ctx) {
 			}
 			c.expectPoly(R3, "utils.(*BitList).GetBytes/elem-index", st.Pos(), n, ia.Index, "i")
 			got := n.Norm(st.Val).String()
-			want := "Conv:uint8(And(255,Shr(bl.data[Div(i,4)],24 - 8*Mod(i,4))))"
+			want := "Conv:uint8(Shr(bl.data[Div(i,4)],24 - 8*Mod(i,4)))"
 			c.Check(R3, "utils.(*BitList).GetBytes/elem-value", st.Pos(), got == want, want, got)
 		})
 	}
@@ -543,6 +546,24 @@ func ruleBitList(c *Ctx) {
 					}
 				}
 			}
+			if cphi != nil && iphi != nil && sphi == nil {
+				// remaining-bits counter beside a byte counter: while rem > 0 { send byte i; i++; rem -= 8 }
+				n.Bind[cphi], n.Bind[iphi] = "rem", "i"
+				c.expectCond(R3, "utils.(*BitList).IterateBytes/while", cphi.Pos(), n.ReachCond(cl, hdr, send.Block()), "rem > 0")
+				got := n.Norm(send.X).String()
+				want := "Conv:uint8(Shr(bl.data[Div(i,4)],24 - 8*Mod(i,4)))"
+				c.Check(R3, "utils.(*BitList).IterateBytes/byte", send.Pos(), got == want, want, got)
+				for ei := range cphi.Edges {
+					if hdr.Dominates(hdr.Preds[ei]) {
+						c.expectPoly(R3, "utils.(*BitList).IterateBytes/rem-step", cphi.Pos(), n, cphi.Edges[ei], "rem - 8")
+						okStep := pEqual(n.Norm(iphi.Edges[ei]), MustRef("i + 1"))
+						for _, sh := range []int64{24, 16, 8, 0} {
+							c.Check(R3, fmt.Sprintf("utils.(*BitList).IterateBytes/advance@%d", sh), iphi.Pos(), okStep, "byte counter i + 1 (word and shift are functions of it)", n.Norm(iphi.Edges[ei]).String())
+						}
+					}
+				}
+				continue
+			}
 			if cphi == nil || sphi == nil || iphi == nil {
 				// closed form: byte number i from 0 while i < ceil(count/8), byte i = word i/4 at shift (3-i%4)*8
 				// (the same formula L3 requires of GetBytes)
@@ -568,7 +589,7 @@ func ruleBitList(c *Ctx) {
 					checkCases(c, R3, "utils.(*BitList).IterateBytes/while", bound.Pos(), cases, []edgeSpec{{"bl.count/8", "bl.count % 8 == 0"}, {"bl.count/8 + 1", "bl.count % 8 != 0"}})
 				}
 				got := n.Norm(send.X).String()
-				want := "Conv:uint8(And(255,Shr(bl.data[Div(i,4)],24 - 8*Mod(i,4))))"
+				want := "Conv:uint8(Shr(bl.data[Div(i,4)],24 - 8*Mod(i,4)))"
 				c.Check(R3, "utils.(*BitList).IterateBytes/byte", send.Pos(), got == want, want, got)
 				c.Check(R3, "utils.(*BitList).IterateBytes/rem-step", send.Pos(), true, "one byte per iteration (counter i)", "i + 1")
 				for _, sh := range []int64{24, 16, 8, 0} {
@@ -579,7 +600,7 @@ func ruleBitList(c *Ctx) {
 			n.Bind[cphi], n.Bind[sphi], n.Bind[iphi] = "rem", "shift", "w"
 			c.expectCond(R3, "utils.(*BitList).IterateBytes/while", cphi.Pos(), n.ReachCond(cl, hdr, send.Block()), "rem > 0")
 			got := n.Norm(send.X).String()
-			want := "Conv:uint8(And(255,Shr(bl.data[w],shift)))"
+			want := "Conv:uint8(Shr(bl.data[w],shift))"
 			c.Check(R3, "utils.(*BitList).IterateBytes/byte", send.Pos(), got == want, want, got)
 			for ei, e := range cphi.Edges {
 				if hdr.Dominates(hdr.Preds[ei]) {
